@@ -247,7 +247,7 @@ pub fn render_func(prog: &[Value], fnend: usize) -> String {
             "end" => "end".into(),
             "for" => "for i in ${arr}".into(),
             "call" => if ln["out"].as_bool().unwrap() { format!("r = f {}", ln["arg"]) } else { format!("f {}", ln["arg"]) },
-            "ret" => if ln["a"].as_bool().unwrap() { "return 7".into() } else { "return".into() },
+            "ret" => if ln["a"].as_bool().unwrap() { "return ${1}".into() } else { "return".into() },
             x => panic!("unknown line kind {}", x),
         };
         text.push_str(&t);
@@ -315,14 +315,14 @@ fn gen_func_block(r: &mut Rng, depth: usize, budget: &mut i64, out: &mut Vec<Val
         match if depth == 0 { r.below(5) } else { r.below(9) } {
             0 | 1 => out.push(fline("emit", json!("T"), false, 0)),
             2 => out.push(fline("dec", json!("T"), false, 0)),
-            3 => if infn { out.push(fline("ret", json!(r.chance(1, 2)), false, 0)) } else { out.push(fline("call", json!("T"), r.chance(1, 2), 5)) },
+            3 => if infn { out.push(fline("ret", json!(r.chance(1, 2)), false, 0)) } else { let o = r.chance(1, 2); out.push(fline("call", json!("T"), o, if o && r.chance(1, 2) { 8 } else { 5 })) },
             4 => if infn {
                 // guarded recursion: only while the counter is positive, and it is decremented first
                 out.push(fline("if", json!("C"), false, 5));
                 out.push(fline("dec", json!("T"), false, 0));
                 out.push(fline("call", json!("T"), false, 6));
                 out.push(fline("end", json!("T"), false, 0));
-            } else { out.push(fline("call", json!("T"), r.chance(1, 2), 5)) },
+            } else { let o = r.chance(1, 2); out.push(fline("call", json!("T"), o, if o && r.chance(1, 2) { 8 } else { 5 })) },
             5 | 6 => {
                 let cond = if !infn && r.chance(1, 3) { "call" } else { *r.pick(&["C", "F", "C"]) };
                 out.push(fline("if", json!(cond), false, 5));
